@@ -71,3 +71,50 @@ Proof.
   intros H. rewrite console_plain_all; [|lia|lia]. replace (a - a + 1) with 1 by lia. change (Z.to_nat 1) with 1%nat.
   apply zrange_one.
 Qed.
+
+(** ---- InjectDiagnostics: which source lines are printed ---- *)
+
+Lemma fold_max_ge : forall r x y, In y (x :: r) -> y <= fold_left Z.max r x.
+Proof.
+  induction r as [|a r IH]; intros x y H; cbn [fold_left].
+  - destruct H as [->|[]]. lia.
+  - destruct H as [->|[->|H]].
+    + specialize (IH (Z.max y a) (Z.max y a) (or_introl eq_refl)). lia.
+    + specialize (IH (Z.max x y) (Z.max x y) (or_introl eq_refl)). lia.
+    + exact (IH (Z.max x a) y (or_intror H)).
+Qed.
+
+(** No panic iff some diagnostic has a position. *)
+Theorem inject_lines_ok_iff nlines ds :
+  (exists l, inject_lines nlines ds = Ok l) <-> List.concat ds <> [].
+Proof.
+  unfold inject_lines. destruct (List.concat ds) as [|x r].
+  - split; [intros (l & H); discriminate|intros H; contradiction].
+  - split; [discriminate|intros _; eexists; reflexivity].
+Qed.
+
+(** Every printed line number is a line of the file, whatever the positions are ... *)
+Theorem inject_lines_in_file nlines ds l x :
+  inject_lines nlines ds = Ok l -> In x l -> 1 <= x <= nlines.
+Proof.
+  unfold inject_lines. destruct (List.concat ds) as [|y r]; [discriminate|]. intros H Hx. inversion H; subst. clear H.
+  apply filter_In in Hx. destruct Hx as [Hx _]. apply zrange_In in Hx. lia.
+Qed.
+
+(** ... and when the positions are inside the file nothing is lost: a line is printed IFF some diagnostic has a
+    position on it. *)
+Theorem inject_lines_complete nlines ds l :
+  (forall x, In x (List.concat ds) -> 1 <= x <= nlines) ->
+  inject_lines nlines ds = Ok l ->
+  forall x, In x l <-> In x (List.concat ds).
+Proof.
+  unfold inject_lines. intros Hin. destruct (List.concat ds) as [|y r] eqn:E; [discriminate|]. intros H. inversion H; subst. clear H.
+  intros x. rewrite filter_In, zrange_In. split.
+  - intros [_ Hb]. apply andb_true_iff in Hb. destruct Hb as [_ Hb].
+    change ((x =? y) || existsb (Z.eqb x) r)%bool with (existsb (Z.eqb x) (y :: r)) in Hb. apply existsb_exists in Hb.
+    destruct Hb as (z & Hz & Ez). apply Z.eqb_eq in Ez. subst z. exact Hz.
+  - intros Hx. pose proof (Hin x Hx) as B. split; [lia|]. apply andb_true_iff. split.
+    + apply Z.leb_le. exact (fold_max_ge r y x Hx).
+    + change ((x =? y) || existsb (Z.eqb x) r)%bool with (existsb (Z.eqb x) (y :: r)).
+      apply existsb_exists. exists x. split; [exact Hx|apply Z.eqb_refl].
+Qed.
